@@ -620,3 +620,88 @@ SPECS["C15"] = CheckSpec(
               "lifecycle relation against the real FSM",
     design_ref="DESIGN.md §3 C15", engine="MGRX",
 )
+
+
+# --------------------------------------------------------------------------- SCHEDX (C16, C06)
+_SCHED_LD = ["-Wl,--wrap=pthread_rwlock_rdlock,--wrap=pthread_rwlock_wrlock,--wrap=pthread_rwlock_unlock,"
+             "--wrap=lrtr_get_monotonic_time,--wrap=sleep,--wrap=lrtr_dbg"]
+SCHED_BUILD = dict(flavour="asan", name="sched", harness_srcs=["sched.c"],
+                   exclude_lib=["rtrlib/pfx/trie/trie-pfx.c", "rtrlib/spki/hashtable/ht-spkitable.c"],
+                   extra_ldflags=_SCHED_LD)
+SCHED_TSAN = dict(SCHED_BUILD, flavour="tsan")
+
+
+def _sj(prop, args, label, n, build=None):
+    return [Job("sched", build or SCHED_BUILD, ["--prop=" + prop] + args + ["--shard=%d" % i, "--nshards=%d" % n],
+                "%s shard %d/%d" % (label, i, n)) for i in range(n)]
+
+
+def c16_jobs(tier, repo):
+    if tier == "quick":
+        return (_sj("C16", ["--shape=1x1", "--bound=3"], "1 reader x 1 op, <=3 preemptions", 2)
+                + _sj("C16", ["--shape=2x1", "--bound=2"], "2 readers x 1 op, <=2 preemptions", 6)
+                + _sj("C16", ["--shape=1x2", "--bound=2"], "1 reader x 2 ops, <=2 preemptions", 4)
+                + _sj("C16", ["--shape=2x1", "--free", "--iters=60"], "TSan free-running, 2 readers", 4, SCHED_TSAN))
+    return (_sj("C16", ["--shape=1x1", "--bound=4"], "1 reader x 1 op, <=4 preemptions", 2)
+            + _sj("C16", ["--shape=2x1", "--bound=3"], "2 readers x 1 op, <=3 preemptions", 12)
+            + _sj("C16", ["--shape=1x2", "--bound=3"], "1 reader x 2 ops, <=3 preemptions", 8)
+            + _sj("C16", ["--shape=2x2", "--bound=2"], "2 readers x 2 ops, <=2 preemptions", 16)
+            + _sj("C16", ["--shape=2x1", "--free", "--iters=1000"], "TSan free-running, 2 readers", 8, SCHED_TSAN)
+            + _sj("C16", ["--shape=1x2", "--free", "--iters=1000"], "TSan free-running, 1 reader x 2", 4, SCHED_TSAN))
+
+
+def c06_jobs(tier, repo):
+    if tier == "quick":
+        return (_sj("C06", ["--bound=2"], "reload vs 2 readers, <=2 preemptions", 14)
+                + _sj("C06", ["--free", "--iters=20"], "TSan free-running", 2, SCHED_TSAN))
+    return (_sj("C06", ["--bound=3"], "reload vs 2 readers, <=3 preemptions", 28)
+            + _sj("C06", ["--bound=1", "--no-por"], "reload vs 2 readers, every lock a scheduling point, <=1 preemption", 4)
+            + _sj("C06", ["--free", "--iters=300"], "TSan free-running", 4, SCHED_TSAN))
+
+
+_SCHED_NOTE = ("Real pthreads run the real table code; pthread_rwlock_{rdlock,wrlock,unlock} are interposed at link time "
+               "(--wrap) and modelled inside the scheduler, exactly one thread runs at a time. Schedules are enumerated "
+               "depth-first with a preemption bound (explore.h). Sequentially consistent interleavings only; the data-race "
+               "clause is decided by a separate free-running ThreadSanitizer build of the same thread bodies with the "
+               "real locks (hand-offs of a cooperative scheduler would hide races).")
+
+SPECS["C16"] = CheckSpec(
+    "C16", c16_jobs,
+    rule="every program = writer thread running every pair of operations from {pfx add, pfx remove of the root (pull-up), "
+         "remove-by-source (two critical sections), key add, key remove} x 1..2 reader threads x 1..2 operations from "
+         "{validate IPv4, validate with reasons, validate IPv6, for-each IPv4, for-each IPv6, get_all, search_by_ski} on a pre-populated "
+         "nested table; for every program ALL interleavings at lock operations and operation boundaries within the "
+         "preemption bound; each read records the writer's completed-critical-section counter at call and return and "
+         "must equal the reference answer for one of the abstract states in that window; states = programs, "
+         "transitions = complete schedules executed; plus free-running TSan executions of the same programs",
+    assumptions=["scheduling points are lock operations and operation boundaries: code between two lock operations of one "
+                 "thread is executed atomically, which is sound for data-race-free code (checked by the TSan jobs)",
+                 "sequentially consistent interleavings of <= 3 threads; weak-memory effects are outside a cooperative scheduler"],
+    counters_map={"distinct": ["distinct_outcomes"]},
+    level_text="Stateless model checking of the real table code under a controlled scheduler: every interleaving of "
+               "small reader/writer programs up to a preemption bound, each read checked for linearizability against "
+               "the reference model; data races decided by ThreadSanitizer on free-running executions.",
+    level_note=_SCHED_NOTE,
+    technique="preemption-bounded exhaustive schedule enumeration over hooked rwlocks (SCHEDX) + separate TSan pass",
+    design_ref="DESIGN.md §3 C16, §2.5 SCHEDX", engine="SCHEDX",
+)
+
+SPECS["C06"] = CheckSpec(
+    "C06", c06_jobs,
+    rule="thread S runs the real rtr_sync on a scripted full reload (old set O -> new set N, 4 O/N pairs: disjoint, "
+         "overlapping, N empty, growing) of a socket that already supplied data, another source's records present; a "
+         "second scenario reaches the reload after an earlier reload attempt was cut by a timeout; reader 1 performs "
+         "two queries on one table, reader 2 one query (validate on records that flip / stay, get_all on old / new "
+         "key); ALL interleavings at operations on the live tables' locks within the preemption bound (operations on "
+         "the thread-private shadow tables are not scheduling points: partial-order reduction, thorough re-checks "
+         "without it); every result must be the answer under the complete old or the complete new set, per reader and "
+         "table never new then old",
+    assumptions=["atomicity is judged per table (prefix table, key table): each has its own lock and no query spans both (DESIGN §5)",
+                 "sequentially consistent interleavings; races judged by the TSan jobs"],
+    counters_map={"distinct": ["distinct_outcomes"]},
+    level_text="Stateless model checking of the real synchronisation code against concurrent readers under a controlled "
+               "scheduler with a preemption bound; the oracle is the old/new dichotomy and monotonicity per reader.",
+    level_note=_SCHED_NOTE,
+    technique="preemption-bounded exhaustive schedule enumeration over hooked rwlocks around the real rtr_sync (SCHEDX) + TSan pass",
+    design_ref="DESIGN.md §3 C06", engine="SCHEDX",
+)
